@@ -458,4 +458,7 @@ def main(tier):
     check_state_after_compare(rep, mod)
     import c10
     c10.check_stored_bound(rep, mod)
+    import acct, c19
+    acct.check(rep, 'i', 50, c19.field_offsets('struct isal_zstream', ['next_in', 'avail_in', 'total_in', 'next_out', 'avail_out', 'total_out']),
+               c19.field_offsets('struct inflate_state', ['next_in', 'avail_in', 'next_out', 'avail_out', 'total_out']), mod)
     return rep.finish()
